@@ -123,7 +123,16 @@ func (t *Term) write(sb *strings.Builder) {
 			t.Args[0].write(sb)
 			for _, p := range pats {
 				sb.WriteString(" :pattern (")
-				p.write(sb)
+				if p.Op == "multipat" {
+					for i, q := range p.Args {
+						if i > 0 {
+							sb.WriteString(" ")
+						}
+						q.write(sb)
+					}
+				} else {
+					p.write(sb)
+				}
 				sb.WriteString(")")
 			}
 			sb.WriteString(")")
